@@ -143,6 +143,7 @@ func (match6Engine) Run(ctx *fw.Ctx, cs any) {
 						if rng.Intn(4) == 0 {
 							extra = append(extra, pkt.O6(pkt.OptClientLL, []byte{0, 1, 2, 0, 0, 0, 0, 1}))
 						}
+						extra = append(extra, relayAgentOpts6(rng)...)
 						link := net.ParseIP(fmt.Sprintf("2001:db8:%x::%x", rng.Intn(65536), 1+rng.Intn(65535)))
 						peer := net.ParseIP(fmt.Sprintf("fe80::%x:%x", rng.Intn(65536), 1+rng.Intn(65535)))
 						msg = pkt.Relay6(12, byte(d), link, peer, extra, msg)
@@ -176,6 +177,7 @@ func (match6Engine) Run(ctx *fw.Ctx, cs any) {
 		}
 		addReq(d, -1)
 	}
+	job.LogLevel = caseLogLevel(c.Seed)
 	out := RunChain(job, ctx.Scratch, 5*time.Minute)
 	conf := fmt.Sprintf("chain #%d %v bound=%q", c.Chain, match6Chains[c.Chain], job.Iface)
 	if out.SetupErr != "" {
